@@ -75,7 +75,10 @@ PROPS['C09'] = {
 }
 K('C09', 'K1.expired_iff', 'teos', _g + 'c09_k1_expired_iff', 'has_subscription_expired <=> height >= expiry; reports the stored expiry; read-only')
 K('C09', 'K2.outdated_iff', 'teos', _g + 'c09_k2_outdated_iff', 'get_outdated_users(h) = {u : h >= expiry_u + grace} computed in N (no u32 wrap)')
-K('C09', 'K3.purge_exact', 'teos', _g + 'c09_k3_purge_exact', 'filtered_block_connected(h): exactly the outdated users leave memory and DB with their appointments/trackers; others bit-identical; height := h')
+for _n, _w in (('none', 'nobody outdated'), ('first', 'user 0 outdated (height == expiry + grace), user 1 one block short'),
+               ('second', 'user 1 outdated, user 0 one block short'), ('both', 'both outdated')):
+    K('C09', 'K3.purge_' + _n, 'teos', _g + 'c09_k3_purge_' + _n,
+      'filtered_block_connected at the boundary height, %s: exactly the users get_outdated_users selects leave memory and DB with their appointments/trackers; others bit-identical; height recorded' % _w)
 K('C09', 'K4.disconnect', 'teos', _g + 'c09_k4_disconnect_height', 'block_disconnected(h): height := h-1, users untouched, expiry check honours it')
 K('C09', 'K5.register_new', 'teos', _g + 'c09_k5_register_new', 'new user: start = h, expiry = min(h+duration, u32::MAX), configured slots; memory == DB == receipt')
 K('C09', 'K5.renew', 'teos', _g + 'c09_k5_renew', 'renewal: expiry += duration (saturating), slots += configured (checked); refused renewal changes nothing; memory == DB == receipt')
@@ -103,3 +106,116 @@ K('C07', 'K4.refund_one', 'teos', _g + 'c07_k4_delete_refund_one', 'delete_appoi
 K('C07', 'K4.refund_two', 'teos', _g + 'c07_k4_delete_refund_two', 'delete_appointments(refund) of two appointments with symbolic owners (same / different)')
 K('C07', 'K4.norefund_one', 'teos', _g + 'c07_k4_delete_norefund_one', 'delete_appointments(no refund): no balance moves (single-row fast path)')
 K('C07', 'K4.norefund_two', 'teos', _g + 'c07_k4_delete_norefund_two', 'delete_appointments(no refund): no balance moves (batch path)')
+_c = 'verif_harness::'
+K('C07', 'K1.slot_formula', 'teos-common', _c + 'c07_k1_slot_formula', 'compute_appointment_slots(n, 2048) == max(1, ceil(n/2048)) for every n <= 2^24 (bit-precise f32)')
+
+# ----------------------------------------------------------------------------------------------- C06 (K part)
+PROPS['C06'] = {
+    'level': 'model_checking',
+    'technique': 'Kani/CBMC on Gatekeeper::authenticate_user with an arbitrary-result stub for signature recovery, plus Engine M '
+                 'path queries on the Watcher request handlers (see obligations)',
+    'bounds': '2 registered users + 1 unregistered key; recover_pk returns any of {error, key of user 0/1/2}',
+    'outside': 'that a signature made for one message does not recover to the same key for another message is ECDSA\'s property '
+               '(libsecp256k1, FFI) and is assumed: recover_pk is an arbitrary-result stub, so everything holds for whatever it returns',
+    'assumptions': GK_ASSUME,
+    'models': [DBM_MODEL] + COMMON_MODELS_TEOS,
+    'harness_timeout': {'quick': 900, 'thorough': 1800},
+    'disabled': True,   # enabled once the Watcher-level obligations exist
+    'obligations': [],
+}
+K('C06', 'K1.authenticate', 'teos', _g + 'c06_k1_authenticate', 'authenticate_user: Ok(u) <=> recovery succeeded and u is registered; no state change')
+K('C06', 'K4.isolation_charge', 'teos', _g + 'c07_k2_charge_update', 'add_update_appointment leaves the other user\'s record bit-identical (memory and DB)')
+K('C06', 'K4.isolation_register', 'teos', _g + 'c09_k5_renew', 'add_update_user leaves the other user\'s record bit-identical (memory and DB)')
+
+
+# ----------------------------------------------------------------------------------------------- C12 (K part), C01/C02/C04
+BITCOIND_MODEL = ('models/bitcoind.rs: the two RPCs the Carrier uses return any outcome (Ok / Rpc{any i32 code} / transport / other error); '
+                  'light shape-compatible error enums replace bitcoincore_rpc::Error under cfg(kani); transport errors bounded by a budget')
+HANG_STUB = ('Carrier::hang_until_bitcoind_reachable (condvar wait, a futex Kani cannot execute) is replaced by a stub that records the flag and '
+             'puts it back up = "the chain monitor\'s next successful poll happened"; the wait itself is Engine M\'s subject')
+CARRIER_CONTRACT = ('Responder loops (handle_reorged_txs, rebroadcast_stale_txs) are verified against the contract of Carrier::send_transaction '
+                    '(stub send_transaction_contract) that c12_k1_send_through_outage establishes, not through its code')
+SHAPES = ('pre-state *shapes* (which rows exist, set membership, enum discriminants, what the node/cipher answers) are concrete per harness and '
+          'enumerated; scalars that do not steer control flow (heights, balances, delays) are symbolic over their full range')
+_ca = 'carrier::verif_harness::'
+_r = 'responder::verif_harness::'
+_w = 'watcher::verif_harness::'
+
+PROPS['C12'] = {
+    'level': 'model_checking',
+    'technique': 'Kani/CBMC on Carrier::{send_transaction,in_mempool} with a node model that may fail with transport errors (bounded), plus '
+                 'Engine M (MIR -> SMT) schedule/order queries on the condvar protocol and the API guard',
+    'bounds': 'outage length k <= 2 transport errors per call (recursion unwound 5), any node reply afterwards (RPC error code full i32), carrier height full u32',
+    'outside': 'lightning_block_sync::SpvClient partial-progress semantics, timing ("after k polls"), multi-block polls; the condvar wait is cut by a stub in the K part',
+    'assumptions': [BITCOIND_MODEL, HANG_STUB] + COMMON_MODELS_TEOS,
+    'models': [BITCOIND_MODEL, HANG_STUB],
+    'harness_timeout': {'quick': 900, 'thorough': 1800},
+    'obligations': [],
+}
+K('C12', 'K1.send_through_outage', 'teos', _ca + 'c12_k1_send_through_outage', 'send_transaction through k<=2 transport errors: same transaction re-submitted, flag down after each error, nothing memoised for a failed attempt, verdict = first non-transport reply; memoised afterwards')
+K('C12', 'K1.in_mempool_through_outage', 'teos', _ca + 'c12_k1_in_mempool_through_outage', 'in_mempool through k<=2 transport errors: query retried with the same id; true <=> Ok reply without block hash; never submits')
+
+PROPS['C04'] = {
+    'level': 'model_checking',
+    'technique': 'Kani/CBMC on the real Responder functions, one chain event from enumerated pre-state shapes with symbolic heights (inductive step)',
+    'bounds': '<=2 trackers, tx index of size 2, heights full u32 (check_confirmations, block_disconnected, handle_reorged_txs, stale threshold); '
+              'rebroadcast loop body at concrete heights on both sides of the 6-block threshold with a concrete node verdict; unwind 6',
+    'outside': 'multi-block evolutions only through the one-step reading; that the node "knows the new chain" is the symbolic verdict; the <=/= selection rule of '
+               'load_trackers_with_confirmation_status is SQL (model); rebroadcast of a stale penalty that the node *accepts* (the harness runs out of memory; the refused and '
+               'already-in-chain verdicts and the selection are decided); heights below 6 (F16)',
+    'assumptions': [SHAPES, DBM_MODEL, BITCOIND_MODEL, HANG_STUB, CARRIER_CONTRACT,
+                    'representation invariant: a tracker recorded ConfirmedIn(h) and not marked reorged has h < the height being connected'] + COMMON_MODELS_TEOS,
+    'models': [DBM_MODEL, BITCOIND_MODEL, HANG_STUB, CARRIER_CONTRACT],
+    'harness_timeout': {'quick': 900, 'thorough': 1800},
+    'obligations': [],
+}
+for _a in ('inblock', 'absent'):
+    for _b in ('reorged', 'fresh'):
+        for _c in ('confirmed', 'mempool'):
+            K('C04', 'P1.check_confirmations.%s.%s.%s' % (_a, _b, _c), 'teos', _r + 'c04_p1_cc_%s_%s_%s' % (_a, _b, _c),
+              'check_confirmations(cur): penalty %s the block, tracker %s, recorded %s(h): confirmed only when seen in a block; complete iff not reorged and cur - h == 100; reorged marks kept until re-confirmation' % (
+                  'in' if _a == 'inblock' else 'not in', 'marked reorged' if _b == 'reorged' else 'not reorged', 'ConfirmedIn' if _c == 'confirmed' else 'InMempoolSince'),
+              'quick' if (_a, _b, _c) in (('inblock', 'reorged', 'confirmed'), ('absent', 'fresh', 'confirmed'), ('absent', 'reorged', 'confirmed'), ('inblock', 'fresh', 'mempool')) else 'thorough')
+K('C04', 'P2.block_disconnected', 'teos', _r + 'c04_p2_block_disconnected', 'block_disconnected(height): exactly the trackers ConfirmedIn(height) join the reorged set; block leaves the index; carrier follows; no status changes; nothing sent')
+K('C04', 'P3.handle_reorged', 'teos', _r + 'c04_p3_handle_reorged', 'handle_reorged_txs: dispute re-announced first, penalty only if the dispute was not refused; not refused => InMempoolSince(height); refused => reported; bystanders untouched')
+K('C04', 'P4.rebroadcast_threshold', 'teos', _r + 'c04_p4_rebroadcast_threshold', 'rebroadcast_stale_txs(height) selects InMempoolSince(height - 6) for every height >= 6')
+K('C04', 'P4.rebroadcast_fresh', 'teos', _r + 'c04_p4_rebroadcast_fresh_boundary', 'a penalty unconfirmed for 5 blocks and a confirmed tracker are not re-submitted')
+K('C04', 'P4.rebroadcast_rejected', 'teos', _r + 'c04_p4_rebroadcast_stale_boundary_rejected', 'a penalty unconfirmed for exactly 6 blocks is re-submitted (only it); refused => reported for deletion', 'thorough')
+K('C04', 'P4.rebroadcast_f7_witness', 'teos', _r + 'c04_p4_rebroadcast_f7', 'witness of known finding F7: verdict "already in chain" on a re-submission makes rebroadcast_stale_txs unwrap() an error', 'thorough')
+K('C04', 'K1.refund_one', 'teos', _g + 'c07_k4_delete_refund_one', 'completed trackers are deleted with refund: owner gets exactly slots(blob) back, once (memory and DB)')
+K('C04', 'K1.norefund_one', 'teos', _g + 'c07_k4_delete_norefund_one', 'rejected trackers are deleted without refund')
+
+# ----------------------------------------------------------------------------------------------- Engine M obligations
+M_ASSUME = ['Engine M reads the compiler\'s MIR of the current tree (cargo +nightly rustc -Zunpretty=mir): Mutex::<T>::lock / guard drops / Condvar calls / calls into other units are explicit terminators; locks are identified by their payload type (each payload type has one instance in the tower)',
+            'branch outcomes are unconstrained (over-approximation: a reported schedule may need infeasible data and is then refined); loops unrolled twice; crate-local callees inlined; unwind (panic) edges are not followed',
+            'each API handler and the chain-monitor thread are threads that can be pre-empted at the extracted events; tokio scheduling, fairness and anything inside non-crate callees are not modelled',
+            'z3 4.8.12 and cvc5 1.0 must agree on every query; any solver error line makes the obligation inconclusive']
+M('C12', 'M1.api_guard', 'api_guard', 'every public API handler (register, add_appointment, get_appointment, get_subscription_info) calls check_service_unavailable before its first lock acquisition or Watcher call (query: exists a trace whose first effect is not the guard)')
+M('C12', 'M3.poll_best_tip', 'poll_best_tip', 'ChainMonitor::poll_best_tip: every completed poll that got an answer raises the reachable flag and notifies the condvar afterwards; transient errors lower it; an error poll never raises it')
+PROPS['C12']['assumptions'] = PROPS['C12']['assumptions'] + M_ASSUME
+
+PROPS['C11'] = {
+    'level': 'model_checking',
+    'technique': 'Engine M: lock skeletons extracted from MIR, circular-wait query discharged by z3 and cvc5 over all pairs of concurrently runnable entry points; '
+                 'Kani/CBMC panic-freedom (unwrap/expect/overflow/index/unreachable) of the unit steps from enumerated pre-state shapes',
+    'bounds': '2 threads (API x API, API x chain event), all InternalAPI handlers and the three Listen implementations as entry points, loops unrolled twice; '
+              'panic checks: the Kani harnesses of C01/C04/C07/C09/C19 (their bounds)',
+    'outside': 'cycles that need three or more threads; liveness under tokio starvation; panics inside dependencies; the condvar self-wait of the chain thread (F5) is reported under C12',
+    'assumptions': M_ASSUME + [SHAPES, DBM_MODEL, BITCOIND_MODEL],
+    'models': [DBM_MODEL, BITCOIND_MODEL],
+    'harness_timeout': {'quick': 900, 'thorough': 1800},
+    'obligations': [],
+}
+M('C11', 'M1.lock_order', 'lock_order', 'no two concurrently runnable entry points can each hold a lock the other requests (no common gate lock), and no entry point re-acquires a lock it holds')
+
+PROPS['C10'] = {
+    'level': 'model_checking',
+    'technique': 'Engine M: event skeletons (lock acquire/release + database and cache calls) of add_appointment and of the watcher\'s block connection extracted from MIR; '
+                 'z3/cvc5 decide whether an interleaving respecting mutual exclusion reaches the bad order',
+    'bounds': '2 threads, every pair of extracted traces (loops unrolled twice), interleavings at event granularity',
+    'outside': 'general serialisability/linearizability (only the named race patterns are decided); tokio; data races inside sqlite; the double-charge race of two concurrent submissions of the same appointment (candidate F10) is not claimed',
+    'assumptions': M_ASSUME,
+    'models': [],
+    'obligations': [],
+}
+M('C10', 'M1.missed_breach', 'missed_breach', 'no interleaving lets add_appointment look the locator up before the block\'s cache update and store the appointment after the block was checked against the database (the cache guard is held across look-up and store)')
